@@ -41,6 +41,19 @@ func fingerprint(b *sourcebundle.Bundle, root string, sc *bw.Scenario, cl *closu
 		}
 		fp = append(fp, fmt.Sprintf("pkg %s meta=%s dir=%s", p, ms, rel(b.LocalPathForRemoteSource(p.SourceAddr("")))))
 		fp = append(fp, fmt.Sprintf("pkg %s sub=%s", p, rel(b.LocalPathForRemoteSource(p.SourceAddr("m1/sub")))))
+		// the reverse direction, asked with paths spelled from the root the bundle was opened by
+		if lp, err := b.LocalPathForRemoteSource(p.SourceAddr("")); err == nil {
+			if r, e := filepath.Rel(root, lp); e == nil && !strings.HasPrefix(r, "..") {
+				for _, sub := range []string{"", "/main.tf", "/m1/x.tf"} {
+					src, err := b.SourceForLocalPath(root + "/" + r + sub)
+					if err != nil {
+						fp = append(fp, fmt.Sprintf("rev %s%s => ERR", r, sub))
+					} else {
+						fp = append(fp, fmt.Sprintf("rev %s%s => %s", r, sub, src))
+					}
+				}
+			}
+		}
 	}
 	for _, rp := range b.RegistryPackages() {
 		for _, v := range b.RegistryPackageVersions(rp) {
@@ -193,6 +206,24 @@ func runPostOps(sc *bw.Scenario, book *simkit.TapeBook, w *world, cl *closure, r
 			} else if d := diffLists(orig, fingerprint(b3, root, sc, cl)); d != "" {
 				out.Violate("C09", "reopen-differs", "accessors-relative", "bundle re-opened by a relative path differs: "+d)
 			}
+			if sc.LinkRoots {
+				// the same directory reached through a symbolic link: the caller's root is the link
+				lnk := "/w/bundle-link"
+				os.Remove(lnk)
+				if os.Symlink(root, lnk) == nil {
+					b4, err := sourcebundle.OpenDir(lnk)
+					if err != nil {
+						out.Violate("C09", "reopen-fails", "open-through-link", fmt.Sprintf("OpenDir by way of a symlink to the bundle directory fails: %v", err))
+					} else {
+						if d := diffLists(orig, fingerprint(b4, lnk, sc, cl)); d != "" {
+							out.Violate("C09", "reopen-differs", "accessors-through-link", "bundle re-opened by way of a symlink to its directory answers differently relative to the root it was opened by: "+d)
+						}
+						checkLinkedRoot(b4, lnk, out, "C18", "bundle opened by way of a symlink")
+					}
+					os.Remove(lnk)
+					out.Probe("reopened-through-link")
+				}
+			}
 			out.Probe("reopened")
 		case "ship":
 			runShip(sc, book, cl, res, orig, log, out)
@@ -209,6 +240,15 @@ func runShip(sc *bw.Scenario, book *simkit.TapeBook, cl *closure, res *vresult, 
 	root := res.r.target
 	dst := "/w/extracted"
 	os.MkdirAll(dst, 0o755)
+	realDst := dst
+	if sc.LinkRoots {
+		// the caller names the destination by way of a symbolic link
+		os.Remove("/w/extracted-link")
+		if os.Symlink("extracted", "/w/extracted-link") == nil {
+			dst = "/w/extracted-link"
+			defer os.Remove("/w/extracted-link")
+		}
+	}
 	// What the builder and the fetcher peer created carries wall-clock times, which end up in
 	// the archive headers and so in the length of the compressed stream. They are data of
 	// this run, not clock readings of the code under test: pin them, so that the same
@@ -264,7 +304,7 @@ func runShip(sc *bw.Scenario, book *simkit.TapeBook, cl *closure, res *vresult, 
 			if d := diffLists(orig, fingerprint(b2, dst, sc, cl)); d != "" {
 				out.Violate("C12", "extract-ok-on-broken-stream", "partial", fmt.Sprintf("the pipe broke after %d bytes, ExtractArchive returned a bundle, and it differs: %s", sc.PipeBreak, d))
 			}
-			compareTreesAs(root, dst, out, "archive extracted from a broken pipe", "C12")
+			compareTreesAs(root, realDst, out, "archive extracted from a broken pipe", "C12")
 		}
 		return
 	}
@@ -279,8 +319,30 @@ func runShip(sc *bw.Scenario, book *simkit.TapeBook, cl *closure, res *vresult, 
 	if d := diffLists(orig, fingerprint(b2, dst, sc, cl)); d != "" {
 		out.Violate("C09", "extract-differs", "accessors", "extracted bundle differs: "+d)
 	}
-	compareTrees(root, dst, out, "extracted archive")
+	compareTrees(root, realDst, out, "extracted archive")
+	if dst != realDst {
+		checkLinkedRoot(b2, dst, out, "C09", "archive extracted into a directory named by way of a symlink")
+		out.Probe("shipped-through-link")
+	}
 	out.Probe("shipped")
+}
+
+// checkLinkedRoot: a bundle whose root the caller spelled through a symlink
+// answers with paths below that spelling, and translates them back.
+func checkLinkedRoot(b *sourcebundle.Bundle, root string, out *simkit.Outcome, prop, what string) {
+	for _, p := range b.RemotePackages() {
+		lp, err := b.LocalPathForRemoteSource(p.SourceAddr(""))
+		if err != nil {
+			continue
+		}
+		if !simkit.Under(filepath.Clean(lp), root) {
+			out.Violate(prop, "lookup-leaves-root", "root-through-link", fmt.Sprintf("%s %s: lookup of %s answers %s, not below the root the caller gave", what, root, p, lp))
+			continue
+		}
+		if _, err := b.SourceForLocalPath(lp + "/main.tf"); err != nil {
+			out.Violate(prop, "reverse-lookup", "root-through-link", fmt.Sprintf("%s %s: path %s/main.tf, which the bundle itself handed out, is reported as not belonging to it: %v", what, root, lp, err))
+		}
+	}
 }
 
 // runTorn: every proper prefix of the manifest must make OpenDir fail (C12).
